@@ -69,49 +69,24 @@ Proof. apply all_within_spec. vm_compute. reflexivity. Qed.
 
 (* sanity: what the skeleton says about the F15 shape (getCurrentPartition is a private helper, analysed in place
    inside Set): the fast path reads currentPartitionId under RLock, the slow path re-reads and writes it under Lock *)
+Definition has_acc (lc : string) (w : bool) (accs : list access) : bool :=
+  existsb (fun a => String.eqb (loc a) lc && Bool.eqb (wr a) w) accs.
+
+(* stated on the SET of accesses of a section (their order depends on how the source is written) *)
 Example cache_getCurrentPartition_shape :
-  exists secs fast slow, In ("Set", secs) cache_skeleton /\ In fast secs /\ In slow secs
-    /\ fast = Sec [("currentPartitionMux", Rd)]
-                  [{| loc := "partitions"; wr := false |}; {| loc := "currentPartitionId"; wr := false |};
-                   {| loc := "partitionCapacity"; wr := false |}]
-    /\ match slow with
-       | Sec h accs => h = [("currentPartitionMux", Wr)]
-                       /\ In {| loc := "currentPartitionId"; wr := true |} accs
-                       /\ In {| loc := "currentPartitionId"; wr := false |} accs
-       | Unknown => False
-       end.
-Proof.
-  assert (H : existsb (fun ms => String.eqb (fst ms) "Set" &&
-                existsb (fun s => match s with
-                                  | Sec [(l, Rd)] [a; b; c] =>
-                                      String.eqb l "currentPartitionMux" && String.eqb (loc a) "partitions" && negb (wr a)
-                                      && String.eqb (loc b) "currentPartitionId" && negb (wr b)
-                                      && String.eqb (loc c) "partitionCapacity" && negb (wr c)
-                                  | _ => false end) (snd ms) &&
-                existsb (fun s => match s with
-                                  | Sec [(l, Wr)] accs =>
-                                      String.eqb l "currentPartitionMux"
-                                      && existsb (fun a => String.eqb (loc a) "currentPartitionId" && wr a) accs
-                                      && existsb (fun a => String.eqb (loc a) "currentPartitionId" && negb (wr a)) accs
-                                  | _ => false end) (snd ms)) cache_skeleton = true) by (vm_compute; reflexivity).
-  apply existsb_exists in H as ([n secs] & Hin & H). simpl in H.
-  apply andb_prop in H as [H Hslow]. apply andb_prop in H as [Hn Hfast].
-  apply String.eqb_eq in Hn. subst n.
-  apply existsb_exists in Hfast as (fast & Hf & Ef). apply existsb_exists in Hslow as (slow & Hs & Es).
-  exists secs, fast, slow. repeat split; auto.
-  - destruct fast as [[|[l [|]] [|]] [|a [|b [|c [|]]]]|]; try discriminate.
-    repeat (apply andb_prop in Ef as [Ef ?]).
-    repeat match goal with H : String.eqb _ _ = true |- _ => apply String.eqb_eq in H end.
-    destruct a as [la wa], b as [lb wb], c as [lc wc]; simpl in *. subst.
-    destruct wa, wb, wc; try discriminate. reflexivity.
-  - destruct slow as [[|[l [|]] [|]] accs|]; try discriminate.
-    apply andb_prop in Es as [Es E3]. apply andb_prop in Es as [E1 E2]. apply String.eqb_eq in E1. subst l.
-    split; [reflexivity|]. split.
-    + apply existsb_exists in E2 as ([la wa] & Hin' & E). simpl in E. apply andb_prop in E as [E Ew].
-      apply String.eqb_eq in E. subst. exact Hin'.
-    + apply existsb_exists in E3 as ([la wa] & Hin' & E). simpl in E. apply andb_prop in E as [E Ew].
-      apply String.eqb_eq in E. destruct wa; [discriminate|]. subst. exact Hin'.
-Qed.
+  existsb (fun ms => String.eqb (fst ms) "Set" &&
+    existsb (fun s => match s with
+                      | Sec [(l, Rd)] accs =>
+                          String.eqb l "currentPartitionMux" && has_acc "partitions" false accs
+                          && has_acc "currentPartitionId" false accs && has_acc "partitionCapacity" false accs
+                          && negb (existsb wr accs)
+                      | _ => false end) (snd ms) &&
+    existsb (fun s => match s with
+                      | Sec [(l, Wr)] accs =>
+                          String.eqb l "currentPartitionMux" && has_acc "currentPartitionId" true accs
+                          && has_acc "currentPartitionId" false accs
+                      | _ => false end) (snd ms)) cache_skeleton = true.
+Proof. vm_compute. reflexivity. Qed.
 
 Print Assumptions cache_core_race_free.
 Print Assumptions cache_races_are_clear_resize_only.
